@@ -278,6 +278,10 @@ def generate(seed, tier="quick", faults=True):
                     {"kind": "nopatch"},
                     {"kind": "sector", "frac": fault.random()},
                     {"kind": "sector", "frac": fault.random()},
+                    # clock skew between the machine that wrote the entry and the one
+                    # that reads it: the file's timestamps say 'years ago' / 'tomorrow'
+                    {"kind": "mtime", "days": -1200.0},
+                    {"kind": "mtime", "days": 1.5},
                 ])
                 ops.append({"op": "damage", "spec": i, "how": how})
                 if gen.random() < 0.8:
@@ -703,6 +707,15 @@ class Run:
         with _REAL["open"](p, "rb") as fh:
             data = fh.read()
         how = op["how"]
+        if how["kind"] == "mtime":
+            # not damage: the entry stays valid, only its timestamps move
+            import time as _t
+
+            t = _t.time() + how["days"] * 86400.0
+            os.utime(p, (t, t))
+            self.fire("clock_skew.mtime_" + ("past" if how["days"] < 0 else "future"))
+            self.log.add(k, "mtime", how["days"])
+            return
         if how["kind"] == "truncate":
             new = data[: int(how["frac"] * len(data))]
         elif how["kind"] == "zero":
@@ -1443,7 +1456,6 @@ def evidence(plan_, executed, tier, master_seed):
         "distinct_abstract_state_triples": len(states),
         "neighbour_kinds_exercised_against_stored_parent": sorted(pairs),
         "neighbour_kinds_not_exercised": missing_pairs,
-        "solver_signature_params": S.signature_params() if False else None,
         "faults_fired": fired,
         "probes": probes,
         "file_api_operations_interposed": hooks,
@@ -1464,7 +1476,7 @@ def evidence(plan_, executed, tier, master_seed):
             "time seen by pyfftw's plan cache": "stub (SimClock, never ticks here)",
         },
     }
-    cov.pop("solver_signature_params")
+    cov["solver_signature_params_without_neighbour_generator"] = [q for q in S.signature_params() if q not in S.SOLVER_PARAMS]
     return {"coverage": cov, "assumptions": [
         "journalling is at the Python file-API level (builtins.open/io.open/os.*); a journal-completeness assertion after every operation turns an unmodelled write path into a harness error",
         "reference model = the same solver call with cache=None in the same process (bit identity expected; 1e-12 / 2e-6 relative tolerated and counted)",
